@@ -189,6 +189,27 @@ theorem C10_freq_needs_radio (α : Rat) (p0 : Piece) (rest : List Piece) (h : p0
       · simp
       · simp
 
+/-- **axis spellings**: a negative integer names the same axis as its non-negative counterpart, `0`
+and `'time'` agree, and `1` and `'freq'` agree on radio signals — so the contiguity tests above apply
+to every way of writing the axis. -/
+theorem C10_axis_spellings (ndim : Nat) (radio : Bool) (a : Int) (h0 : 0 ≤ a) (h1 : a < ndim) :
+    axisOf ndim radio (.idx (a - ndim)) = axisOf ndim radio (.idx a) ∧
+    (0 < ndim → axisOf ndim radio (.idx 0) = axisOf ndim radio (.name "time")) ∧
+    (1 < ndim → radio = true → axisOf ndim radio (.idx 1) = axisOf ndim radio (.name "freq")) := by
+  refine ⟨?_, ?_, ?_⟩
+  · unfold axisOf
+    have hneg : a - (ndim : Int) < 0 := by omega
+    have hnn : ¬ a < 0 := by omega
+    have e : a - (ndim : Int) + ndim = a := by omega
+    simp only [hneg, hnn, if_true, if_false, e, false_or]
+  · intro h
+    have hn : ndim ≠ 0 := by omega
+    simp [axisOf, hn]
+  · intro h hr
+    subst hr
+    have hn : ¬ (ndim : Int) ≤ 1 := by omega
+    simp [axisOf, hn]
+
 -- non-vacuity: 10 samples at 2 Hz cut into 3 + 0 + 7, middle piece without start time
 example : (concat (1/1000) .time (timePieces 0 ⟨some 5, 2, 10⟩ none 0 [(3, true), (0, false), (7, true)])).toOption.map
     (fun r => (r.led.t0, r.led.len)) = some (some 5, 10) := by decide +kernel
